@@ -5,6 +5,9 @@ seed = int(sys.argv[1]); cases = sys.argv[2]
 sys.argv = ['check']
 exec(open('/verif/check').read().split("if __name__")[0])
 PROPS["C20"][0]["quick"] = T(shards=12, timeout=3000, env={"VERIF_C20_CASES": cases})
+if os.environ.get("DAEMON_RUNS"):
+    PROPS["C20"] = [PROPS["C20"][1]]
+    PROPS["C20"][0]["quick"] = T(shards=8, timeout=3000, env={"VERIF_C20_DAEMON_RUNS": os.environ["DAEMON_RUNS"]})
 status, violations, procs, rundir, wall = run_units("C20", "quick", seed)
 sigs = collections.Counter()
 ncases = 0
